@@ -3,6 +3,7 @@ package dag
 import (
 	"errors"
 	"fmt"
+	"math"
 	"os"
 	"os/exec"
 	"regexp"
@@ -742,6 +743,12 @@ func convertValue(v any) (any, error) {
 			ret[i] = cv
 		}
 		return ret, nil
+	case float64:
+		// .nan and .inf are valid YAML but cannot be serialised as JSON
+		if math.IsNaN(t) || math.IsInf(t, 0) {
+			return nil, fmt.Errorf("executor config: %v is not a finite number", t)
+		}
+		return t, nil
 	default:
 		return v, nil
 	}
